@@ -87,12 +87,187 @@ def cases(rng, tier):
         for pn, (k, r) in spec.items():
             if k == "other":
                 continue
-            for wrong in (["s", 7, True, ["a", "b"], {"a": 1}, None, "12", [1], []] if tier != "quick" else rng.sample(["s", 7, True, ["a", "b"], {"a": 1}, None, "12", [1], []], 3)):
+            WRONG = ["s", 7, True, ["a", "b"], {"a": 1}, None, "12", [1], [], ["a", 1], [1, "a"], ["a", {"x": 1}], ["a", None], ["a", ["b"]]]
+            for wrong in (WRONG if tier != "quick" else rng.sample(WRONG, 4)):
                 out.append({"t": "slot", "cls": qn, "param": pn, "kind": k, "v": wrong})
+    out += rule_cases()
     return out
 
 
+# ---------------------------------------------------------------------------------------------------------------- cross-parameter rules
+# For each class with a rule of its own: the FULL table of the rule's inputs (the property's quantifier), on a message that satisfies the
+# generic schema.  `args` go to the constructor, `kw` to verify(); `line` is what the Lean rule is asked.
+BCL = "http://schemas.openid.net/event/backchannel-logout"
+
+
+def _b(x):
+    return "1" if x else "0"
+
+
+def _ol(x):
+    return "-" if x is None else enc_list(x)
+
+
+def _os(x):
+    return "-" if x is None else enc_str(x)
+
+
+def rule_cases():
+    import itertools as it
+    out = []
+
+    def add(cls, rule, args, kw, line):
+        out.append({"t": "rule", "cls": cls, "rule": rule, "args": args, "kw": kw, "line": "\t".join(["rules", rule] + line)})
+    # OauthClientMetadata / OauthClientInformationResponse
+    GT = [None, ["authorization_code"], ["implicit"], ["refresh_token"], ["refresh_token", "implicit"], ["client_credentials", "authorization_code"], []]
+    for gt, ru in it.product(GT, (False, True)):
+        a = {}
+        if gt is not None:
+            a["grant_types"] = gt
+        if ru:
+            a["redirect_uris"] = ["https://rp.example/cb"]
+        add("idpyoidc.message.oauth2.OauthClientMetadata", "clientMetadata", a, {}, [enc_list(gt or []), _b(ru)])
+        for sec, exp in it.product((False, True), repeat=2):
+            b = dict(a, client_id="c")
+            if sec:
+                b["client_secret"] = "s"
+            if exp:
+                b["client_secret_expires_at"] = 0 if gt is None else 1900000000
+            add("idpyoidc.message.oauth2.OauthClientInformationResponse", "clientInformation", b, {}, [enc_list(gt or []), _b(ru), _b(sec), _b(exp)])
+    # oidc.AuthorizationRequest
+    RT = [["code"], ["id_token"], ["code", "id_token"], ["id_token", "token"], ["token"], ["code", "token"]]
+    SC = [["openid"], ["profile"], ["openid", "offline_access"], ["offline_access"], ["openid", "profile"]]
+    PR = [None, ["consent"], ["none"], ["none", "login"], ["login"], ["login", "consent"], ["none", "consent"]]
+    for rt, nonce, sc, pr in it.product(RT, (False, True), SC, PR):
+        a = {"client_id": "c", "redirect_uri": "https://rp.example/cb", "response_type": rt, "scope": sc}
+        if nonce:
+            a["nonce"] = "n"
+        if pr is not None:
+            a["prompt"] = pr
+        add("idpyoidc.message.oidc.AuthorizationRequest", "oidcAuthorizationRequest", a, {}, [enc_list(rt), _b(nonce), enc_list(sc), _ol(pr)])
+    # RegistrationRequest / RegistrationResponse
+    PAIRS = ["request_object_encryption", "id_token_encrypted_response", "userinfo_encrypted_response"]
+    for il, none_alg in it.product((None, "https://rp.example/login", "http://rp.example/login"), (None, "none", "RS256")):
+        for combo in it.product(((False, False), (True, False), (False, True), (True, True)), repeat=3):
+            if sum(1 for x in combo if x != (False, False)) > 2 and (il or none_alg):
+                continue       # keep the table at the rule's inputs: all 64 pair combinations alone, the rest with at most two pairs touched
+            a = {"redirect_uris": ["https://rp.example/cb"]}
+            if il:
+                a["initiate_login_uri"] = il
+            if none_alg:
+                a["token_endpoint_auth_signing_alg"] = none_alg
+            ps = []
+            for name, (alg, enc) in zip(PAIRS, combo):
+                if alg:
+                    a[name + "_alg"] = "RSA-OAEP"
+                if enc:
+                    a[name + "_enc"] = "A128CBC-HS256"
+                ps += [_b(alg), _b(enc)]
+            add("idpyoidc.message.oidc.RegistrationRequest", "registrationRequest", a, {},
+                ["-" if il is None else _b(il.startswith("https:")), _b(none_alg == "none")] + ps)
+    for uri, at_, none_alg in it.product((False, True), (False, True), (None, "none")):
+        for combo in (((False, False),) * 3, ((True, True), (False, False), (False, False)), ((False, True), (False, False), (False, False))):
+            a = {"client_id": "c", "redirect_uris": ["https://rp.example/cb"]}
+            if uri:
+                a["registration_client_uri"] = "https://op.example/reg?client_id=c"
+            if at_:
+                a["registration_access_token"] = "rat"
+            if none_alg:
+                a["token_endpoint_auth_signing_alg"] = none_alg
+            ps = []
+            for name, (alg, enc) in zip(PAIRS, combo):
+                if alg:
+                    a[name + "_alg"] = "RSA-OAEP"
+                if enc:
+                    a[name + "_enc"] = "A128CBC-HS256"
+                ps += [_b(alg), _b(enc)]
+            add("idpyoidc.message.oidc.RegistrationResponse", "registrationResponse", a, {}, [_b(none_alg == "none"), _b(uri), _b(at_)] + ps)
+    # ProviderConfigurationResponse
+    RTS = [["code"], ["id_token"], ["code id_token"], ["id_token", "id_token token"], ["code token", "id_token"], ["code id_token token"], ["token", "id_token"],
+           ["code", "code id_token"]]
+    for scopes, iss, allow, auth, ida, rts, tep in it.product([None, ["openid"], ["profile"], ["openid", "email"]],
+                                                              ["https://op.example", "http://op.example", "https://op.example?x=1", "https://op.example#f"],
+                                                              (False, True), [None, ["RS256"], ["none", "RS256"]], [["RS256"], ["none"], ["none", "ES256"], ["None"]],
+                                                              RTS, (False, True)):
+        if (scopes, auth, ida) != (None, None, ["RS256"]) and rts not in (["code"], ["id_token"]):
+            continue          # response types vary over the whole list with the other inputs fixed; the other inputs vary against two lists
+        a = {"issuer": iss, "authorization_endpoint": "https://op.example/authz", "jwks_uri": "https://op.example/jwks.json", "response_types_supported": rts,
+             "subject_types_supported": ["public"], "id_token_signing_alg_values_supported": ida}
+        if scopes is not None:
+            a["scopes_supported"] = scopes
+        if auth is not None:
+            a["token_endpoint_auth_signing_alg_values_supported"] = auth
+        if tep:
+            a["token_endpoint"] = "https://op.example/token"
+        kw = {"allow_http": True} if allow else {}
+        add("idpyoidc.message.oidc.ProviderConfigurationResponse", "providerConfiguration", a, kw,
+            [_ol(scopes), _b(iss.startswith("https:")), _b(allow), _ol(auth), enc_list(ida), _b("?" not in iss and "#" not in iss), enc_list(rts), _b(tep)])
+    # IdToken: audience rules (times valid)
+    for aud, azp, me in it.product([["me"], ["me", "other"], ["other"], ["other", "third"]], [None, "me", "other", "stranger"], [None, "me"]):
+        a = {"iss": "https://op.example", "sub": "s", "aud": aud, "exp": "NOW+600", "iat": "NOW"}
+        if azp:
+            a["azp"] = azp
+        kw = {"client_id": me} if me else {}
+        add("idpyoidc.message.oidc.IdToken", "idTokenAudience", a, kw, [enc_list(aud), _os(azp), _os(me)])
+    # LogoutToken
+    for nonce, ev, sub, sid, wa, wi in it.product((False, True), [{BCL: {}}, {BCL: {"x": 1}}, {"other": {}}, {BCL: {}, "other": {}}, {}], (False, True), (False, True),
+                                                  (None, "me", "stranger"), (None, "https://op.example", "https://evil.example")):
+        a = {"iss": "https://op.example", "aud": ["me"], "iat": "NOW", "jti": "j", "events": ev}
+        if nonce:
+            a["nonce"] = "n"
+        if sub:
+            a["sub"] = "s"
+        if sid:
+            a["sid"] = "sid"
+        kw = {}
+        if wa:
+            kw["aud"] = wa
+        if wi:
+            kw["iss"] = wi
+        keys = list(ev)
+        add("idpyoidc.message.oidc.session.LogoutToken", "logoutToken", a, kw,
+            [_b(nonce), enc_list(keys), _b(len(keys) == 1 and ev[keys[0]] == {}), _b(sub), _b(sid), enc_list(["me"]), _os(wa), enc_str("https://op.example"), _os(wi)])
+    # oauth2.AuthorizationResponse
+    for cid, wcid, iss, wiss in it.product((None, "c"), (None, "c", "d"), (None, "https://op.example"), (None, "https://op.example", "https://evil.example")):
+        a = {"code": "x"}
+        if cid:
+            a["client_id"] = cid
+        if iss:
+            a["iss"] = iss
+        kw = {}
+        if wcid:
+            kw["client_id"] = wcid
+        if wiss:
+            kw["iss"] = wiss
+        add("idpyoidc.message.oauth2.AuthorizationResponse", "authorizationResponse", a, kw, [_os(cid), _os(wcid), _os(iss), _os(wiss)])
+    # EndSessionRequest (presence part; the hint itself is a signed object: C08)
+    for pl in (False, True):
+        a = {"post_logout_redirect_uri": "https://rp.example/lo"} if pl else {}
+        add("idpyoidc.message.oidc.session.EndSessionRequest", "endSessionRequest", a, {}, [_b(pl), "0"])
+    return out
+
+
+def _run_rule(c):
+    import importlib
+    import time as _t
+    mod, name = c["cls"].rsplit(".", 1)
+    cls = getattr(importlib.import_module(mod), name)
+    now = int(_t.time())
+    args = {k: (now + 600 if v == "NOW+600" else now if v == "NOW" else v) for k, v in c["args"].items()}
+    try:
+        m = cls(**args)
+    except Exception as e:
+        return {"r": "construct-exc", "e": type(e).__name__}
+    try:
+        r = m.verify(**c["kw"])
+    except Exception as e:
+        return {"r": "refuse", "e": type(e).__name__}
+    return {"r": "ok" if r is not False else "refuse", "e": None if r is not False else "returned False"}
+
+
 def impl(c):
+    if c["t"] == "rule":
+        return _run_rule(c)
     cls = classes()[c["cls"]]
     if c["t"] == "req":
         try:
@@ -151,6 +326,8 @@ def _enc_allowed(al):
 
 
 def model_lines(c, obs):
+    if c["t"] == "rule":
+        return [c["line"]]
     cls = classes()[c["cls"]]
     if c["t"] == "gen":
         names, kinds, reqs, allowed = [], [], [], []
@@ -177,6 +354,8 @@ def model_lines(c, obs):
 
 
 def compare(c, obs, outs):
+    if c["t"] == "rule":
+        return [] if outs[0] == obs["r"] else [f"rule {c['rule']} on {c['args']} verify({c['kw']}): model={outs[0]} impl={obs}"]
     if c["t"] == "gen":
         return [] if outs[0] == obs["r"] else [f"generic verify: model={outs[0]} impl={obs['r']} {obs.get('e')}"]
     if c["t"] == "slot":
@@ -197,8 +376,23 @@ def compare(c, obs, outs):
     return []
 
 
+RULE_ORACLE = {
+    # independent restatement of a few rules in terms of the raw arguments (the others are covered by the model comparison)
+    "providerConfiguration": lambda a, kw: not any("code" in rt.split(" ") for rt in a["response_types_supported"]) or "token_endpoint" in a,
+    "oidcAuthorizationRequest": lambda a, kw: ("id_token" not in a["response_type"] or "nonce" in a) and "openid" in a["scope"],
+    "registrationResponse": lambda a, kw: ("registration_client_uri" in a) == ("registration_access_token" in a),
+    "clientMetadata": lambda a, kw: not ({"authorization_code", "implicit"} & set(a.get("grant_types", []))) or "redirect_uris" in a,
+    "idTokenAudience": lambda a, kw: (len(a["aud"]) < 2 or a.get("azp") in a["aud"]) and (kw.get("client_id") is None or kw["client_id"] in a["aud"]),
+}
+
+
 def oracle(c, obs):
     v = []
+    if c["t"] == "rule":
+        f = RULE_ORACLE.get(c["rule"])
+        if f and obs["r"] == "ok" and not f(c["args"], c["kw"]):
+            v.append({"cls": "cross-parameter-rule-not-enforced", "rule": c["rule"], "class": c["cls"].split(".")[-1]})
+        return v
     if c["t"] == "req" and obs["r"] == "ok":
         if obs["missing"]:
             v.append({"cls": "verify-accepts-missing-required", "class": c["cls"].split(".")[-1]})
@@ -215,10 +409,14 @@ def known_key(c, v, known):
 
 
 def classify(c, obs):
+    if c["t"] == "rule":
+        return "rule:" + c["rule"] + ":" + obs["r"]
     return c["t"] + ":" + obs["r"]
 
 
 def nontrivial(c, obs):
+    if c["t"] == "rule":
+        return True
     return c["t"] != "req" or c.get("drop") is not None or c.get("outside") is not None
 
 
